@@ -42,6 +42,30 @@ CHECKS = {
    note="Trusted: TLC, the harness's nested-library builder and its 2x2 integer map application. General angles only for "
         "rational sine/cosine.",
    tech="TLA+ placement algebra + flatten state machine, TLC exhaustive; S->I replay"),
+ "C01": dict(cat="model_checking", ref="§6 C01",
+   text="GdsGrammar.tla is the GDSII record grammar as a state machine (one step per record) with the meaning of each record; "
+        "MC_GdsGen enumerates its behaviours with value classes (every element kind x every optional-record subset x property "
+        "lists x value profiles; simulated multi-structure libraries) and checks the format-level round trip as an invariant. "
+        "Each library is constructed in memory, written and re-read by the crate (== and field-wise projection), plus record-"
+        "limit payloads and random large libraries.",
+   note="Trusted: TLC, the hand-written constructor/projection glue (self-tested: project(construct(x)) = x on every case). "
+        "Domain: strings without NUL, reals in range, no -0.0; write errors accepted.",
+   tech="TLA+ grammar/codec spec as generator (TLC exhaustive + simulation); S->I replay, I->S random libraries"),
+ "C02": dict(cat="model_checking", ref="§6 C02",
+   text="The specification is the independent decoder: Trace_GdsStream walks the crate's written bytes record by record through "
+        "GdsRecords/GdsGrammar/GdsCodec/GdsReal (length fields, type pairs, payload sizes, grammar order, ENDLIB last, lengths "
+        "adding up) and compares the decoded library with the one handed to the writer, for every generated and random library. "
+        "The writer's bytes are also compared with the independent encoder's.",
+   note="Trusted: TLC, the four-byte framing in the harness, the projection glue. Nothing of write.rs/read.rs is shared with "
+        "the decoder.",
+   tech="TLA+ grammar/codec as decoder; I->S trace validation of written streams by TLC"),
+ "C03": dict(cat="model_checking", ref="§6 C03",
+   text="The specification is the independent encoder: MC_GdsGen emits conformant byte streams with the library each encodes "
+        "(incl. padded/unpadded strings, arbitrary dates, 0..2048 bytes after ENDLIB, library-level optional records -> error); "
+        "from_bytes must return exactly that library. The reader's own read()/seek() calls, logged by an instrumented source, "
+        "are validated against GdsReader.tla (no read after ENDLIB).",
+   note="Trusted: TLC, projection glue, the logging source. Hook: cfg-guarded re-export of GdsReader/GdsParser.",
+   tech="TLA+ grammar/codec as encoder (TLC exhaustive + simulation); S->I replay; I->S read-log validation"),
 }
 
 PENDING = {}
@@ -87,6 +111,6 @@ def main():
     }
     json.dump(m, open(os.path.join(V, "MANIFEST.json"), "w"), indent=1)
 
-HOOK_COMMITS = []
+HOOK_COMMITS = ["d26c551"]
 if __name__ == "__main__":
     main()
